@@ -3,10 +3,10 @@
     [HInvZ st]: the table is a well-formed ZBDD table with both terminals
     ([ZbddOK], which includes: every handle slot refers to a stored node or
     terminal), the tautology chain of the manager is complete ([ZChainOK]),
-    the apply cache - as the algorithms of a manager with the current number
-    of levels see it ([zcgetN], Mgr/HistoryZ.v: Restrict entries are keyed by the
-    number of levels) - serves only correct entries for all operator codes
-    ([ZCacheOKB]), and no Restrict entry is keyed with a number of levels the
+    the apply cache serves only correct entries for all operator codes
+    ([ZCacheOKB]; Restrict entries are keyed by the number of levels, DD/ZbddBool.v
+    [zrestrict], and an entry says something only for the table's own number of
+    levels), and no Restrict entry is keyed with a number of levels the
     manager has not reached yet ([znofuture]; entries of smaller numbers of
     levels may linger after [add_vars]: they are never looked up again).
 
@@ -56,8 +56,6 @@ Local Arguments zmake_node : simpl never.
 Local Arguments zadd_vars : simpl never.
 Local Arguments set_var_order_model_z : simpl never.
 Local Arguments gc_model : simpl never.
-Local Arguments zcgetN : simpl never.
-Local Arguments zcaddN : simpl never.
 
 Lemma fam_of_set_handles : forall s hs r, fam_of (set_handles s hs) r = fam_of s r.
 Proof.
@@ -87,17 +85,13 @@ Notation hstate_z := (hstate_z C).
 Notation hstep_z := (hstep_z gt C cget cadd cempty).
 Notation hrun_z := (hrun_z gt C cget cadd cempty).
 Notation mkHZ := (mkHZ C).
-(** the cache as a manager with [n] levels accesses it *)
-Notation cgN n := (zcgetN C cget n).
-Notation caN n := (zcaddN C cadd n).
-Notation LN n := (zlossyN C cget cadd Hlossy n).
-Notation ZOKB n := (ZCacheOKB C (zcgetN C cget n)).
+Notation ZOKB := (ZCacheOKB C cget).
 Notation NOFUT n := (znofuture C cget n).
 
 Record HInvZ (st : hstate_z) : Prop := mkHInvZ {
   hzi_ok : ZbddOK (hz_s C st);
   hzi_chain : ZChainOK (hz_s C st);
-  hzi_cache : ZOKB (nlevels (hz_s C st)) (hz_s C st) (hz_c C st);
+  hzi_cache : ZOKB (hz_s C st) (hz_c C st);
   hzi_future : NOFUT (nlevels (hz_s C st)) (hz_c C st)
 }.
 
@@ -118,8 +112,8 @@ Qed.
 Lemma zslot_ok : forall st k r, HInvZ st -> zslot C st k = Some r -> ref_ok (hz_s C st) r.
 Proof. intros st k r I E. apply (zroot_ok st r I). apply (zslot_root st k r E). Qed.
 
-Lemma zokb_empty : forall n s, ZOKB n s cempty.
-Proof. intros n s code args nums r E. unfold zcgetN in E. rewrite Hempty in E. discriminate. Qed.
+Lemma zokb_empty : forall s, ZOKB s cempty.
+Proof. intros s code args nums r E. rewrite Hempty in E. discriminate. Qed.
 
 Lemma nofut_empty : forall n, NOFUT n cempty.
 Proof. intros n a m n' r E. rewrite Hempty in E. discriminate. Qed.
@@ -228,7 +222,7 @@ Definition hpost_z (st : hstate_z) (o : zhop) (st' : hstate_z) : Prop :=
 (** ** Storing the result of an algorithm *)
 
 Lemma hinvz_put : forall st s' c' d r, HInvZ st ->
-  ZbddOK s' -> ZChainOK s' -> ZOKB (nlevels s') s' c' -> NOFUT (nlevels s') c' -> ref_ok s' r ->
+  ZbddOK s' -> ZChainOK s' -> ZOKB s' c' -> NOFUT (nlevels s') c' -> ref_ok s' r ->
   HInvZ (mkHZ (put s' d r) c').
 Proof.
   intros st s' c' d r I B' Hc' Q' N' Or. constructor; simpl.
@@ -278,7 +272,7 @@ Qed.
 
 (** the common part of all calls that run an algorithm and store its result *)
 Lemma zfinish_ok : forall st o d s' c' r, HInvZ st -> zhdst o = Some d -> zchanges_order o = false ->
-  ZbddOK s' -> extends (hz_s C st) s' -> ZOKB (nlevels (hz_s C st)) s' c' ->
+  ZbddOK s' -> extends (hz_s C st) s' -> ZOKB s' c' ->
   NOFUT (nlevels (hz_s C st)) c' -> ref_ok s' r ->
   let st' := mkHZ (put s' d r) c' in
   HInvZ st' /\ hframe_z st o st' /\
@@ -287,7 +281,7 @@ Lemma zfinish_ok : forall st o d s' c' r, HInvZ st -> zhdst o = Some d -> zchang
 Proof.
   intros st o d s' c' r I Hd Hco B' X Q' N' Or. simpl.
   pose proof (zchain_extends _ s' (hzi_ok st I) B' X (hzi_chain st I)) as Hc'.
-  rewrite <- (ext_nlevels _ _ X) in Q', N'.
+  rewrite <- (ext_nlevels _ _ X) in N'.
   split; [apply (hinvz_put st); assumption|].
   split; [apply framez_put; assumption|].
   split; [intros F HF; apply zholds_put; exact HF|].
@@ -314,35 +308,35 @@ Proof.
     eexists. split; [reflexivity|]. split; [exact I'|]. split; [exact F'|]. simpl. apply P'. exact S.
   - (* ZHVar *)
     destruct neg.
-    + destruct (znot_var_bfun gt C (cgN n) (caN n) (LN n) _ (hz_c C st) v B Hc Q Pre)
+    + destruct (znot_var_bfun gt C cget cadd Hlossy _ (hz_c C st) v B Hc Q Pre)
         as (s' & c' & r & E & (B' & _ & X & Q' & Or) & S).
       fold n in E. rewrite E. simpl zfinish.
-      pose proof (znot_var_pres gt C (cgN n) (caN n) (NOFUT n) NFadd _ _ _ _ _ _ _ E NF) as NF'.
+      pose proof (znot_var_pres gt C cget cadd (NOFUT n) n NFadd _ _ _ _ _ _ _ E NF) as NF'.
       destruct (zfinish_ok st (ZHVar d v true) d s' c' r I eq_refl eq_refl B' X Q' NF' Or) as [I' [F' [P' _]]].
       eexists. split; [reflexivity|]. split; [exact I'|]. split; [exact F'|]. simpl. apply P'.
       intros a. rewrite S. reflexivity.
     + destruct (zvar_bfun _ v B Hc Pre) as (s' & r & E & B' & _ & X & Or & S).
       rewrite E. simpl zfinish0.
       destruct (zfinish_ok st (ZHVar d v false) d s' (hz_c C st) r I eq_refl eq_refl B' X
-                  (zcacheokb_extends C (cgN n) _ s' _ B X Q) NF Or) as [I' [F' [P' _]]].
+                  (zcacheokb_extends C cget _ s' _ B X Q) NF Or) as [I' [F' [P' _]]].
       eexists. split; [reflexivity|]. split; [exact I'|]. split; [exact F'|]. simpl. apply P'.
       intros a. rewrite S. destruct (var_s v a); reflexivity.
   - (* ZHNot *)
     destruct Pre as [f Ef]. rewrite Ef. pose proof (zslot_ok st x f I Ef) as Of.
-    destruct (zapply_not_bfun gt C (cgN n) (caN n) (LN n) _ (hz_c C st) f B Hc Q Of)
+    destruct (zapply_not_bfun gt C cget cadd Hlossy _ (hz_c C st) f B Hc Q Of)
       as (s' & c' & r & E & (B' & _ & X & Q' & Or) & S).
     fold n in E. rewrite E. simpl zfinish.
-    pose proof (zapply_not_pres gt C (cgN n) (caN n) (NOFUT n) NFadd _ _ _ _ _ _ _ E NF) as NF'.
+    pose proof (zapply_not_pres gt C cget cadd (NOFUT n) n NFadd _ _ _ _ _ _ _ E NF) as NF'.
     destruct (zfinish_ok st (ZHNot d x) d s' c' r I eq_refl eq_refl B' X Q' NF' Or) as [I' [F' [P' _]]].
     eexists. split; [reflexivity|]. split; [exact I'|]. split; [exact F'|].
     simpl. exists f. split; [exact Ef|]. apply P'. exact S.
   - (* ZHBin *)
     destruct Pre as [[f Ef] [g Eg]]. rewrite Ef, Eg.
     pose proof (zslot_ok st x f I Ef) as Of. pose proof (zslot_ok st y g I Eg) as Og.
-    destruct (zapply_op_bfun gt C (cgN n) (caN n) (LN n) op _ (hz_c C st) f g B Hc Q Of Og)
+    destruct (zapply_op_bfun gt C cget cadd Hlossy op _ (hz_c C st) f g B Hc Q Of Og)
       as (s' & c' & r & E & (B' & _ & X & Q' & Or) & S).
     fold n in E. rewrite E. simpl zfinish.
-    pose proof (zapply_op_pres gt C (cgN n) (caN n) (NOFUT n) NFadd _ _ _ _ _ _ _ _ _ E NF) as NF'.
+    pose proof (zapply_op_pres gt C cget cadd (NOFUT n) n NFadd _ _ _ _ _ _ _ _ _ E NF) as NF'.
     destruct (zfinish_ok st (ZHBin op d x y) d s' c' r I eq_refl eq_refl B' X Q' NF' Or) as [I' [F' [P' _]]].
     eexists. split; [reflexivity|]. split; [exact I'|]. split; [exact F'|].
     simpl. exists f, g. split; [exact Ef|]. split; [exact Eg|]. apply P'. exact S.
@@ -350,25 +344,25 @@ Proof.
     destruct Pre as [[f Ef] [[g Eg] [h Eh]]]. rewrite Ef, Eg, Eh.
     pose proof (zslot_ok st x f I Ef) as Of. pose proof (zslot_ok st y g I Eg) as Og.
     pose proof (zslot_ok st z h I Eh) as Oh.
-    destruct (zapply_ite_bfun gt C (cgN n) (caN n) (LN n) _ (hz_c C st) f g h B Hc Q Of Og Oh)
+    destruct (zapply_ite_bfun gt C cget cadd Hlossy _ (hz_c C st) f g h B Hc Q Of Og Oh)
       as (s' & c' & r & E & (B' & _ & X & Q' & Or) & S).
     fold n in E. rewrite E. simpl zfinish.
-    pose proof (zapply_ite_pres gt C (cgN n) (caN n) (NOFUT n) NFadd _ _ _ _ _ _ _ _ _ E NF) as NF'.
+    pose proof (zapply_ite_pres gt C cget cadd (NOFUT n) n NFadd _ _ _ _ _ _ _ _ _ E NF) as NF'.
     destruct (zfinish_ok st (ZHIte d x y z) d s' c' r I eq_refl eq_refl B' X Q' NF' Or) as [I' [F' [P' _]]].
     eexists. split; [reflexivity|]. split; [exact I'|]. split; [exact F'|].
     simpl. exists f, g, h. split; [exact Ef|]. split; [exact Eg|]. split; [exact Eh|]. apply P'. exact S.
   - (* ZHRestrict *)
     destruct Pre as [[f Ef] [V [M [Ev Hcube]]]]. rewrite Ef, Ev.
     pose proof (zslot_ok st x f I Ef) as Of. pose proof (zslot_ok st cube V I Ev) as Ov.
-    destruct (zrestrict_edge_cube C (cgN n) (caN n) (LN n) _ _ (hz_c C st) f V M B Hc Q Of Hcube (le_n _))
+    destruct (zrestrict_edge_cube C cget cadd Hlossy _ _ (hz_c C st) f V M B Hc Q Of Hcube (le_n _))
       as (s' & c' & r & E & (B' & _ & X & Q' & Or) & _).
     fold n in E. rewrite E. simpl zfinish.
-    pose proof (zrestrict_edge_pres C (cgN n) (caN n) (NOFUT n) NFadd _ _ _ _ _ _ _ _ E NF) as NF'.
+    pose proof (zrestrict_edge_pres C cget cadd (NOFUT n) n NFadd _ _ _ _ _ _ _ _ eq_refl E NF) as NF'.
     destruct (zfinish_ok st (ZHRestrict d x cube) d s' c' r I eq_refl eq_refl B' X Q' NF' Or) as [I' [F' [P' _]]].
     eexists. split; [reflexivity|]. split; [exact I'|]. split; [exact F'|].
     simpl. exists f, V. split; [exact Ef|]. split; [exact Ev|].
     intros lits Hnd Hrange Hlits. apply P'.
-    destruct (zrestrict_edge_is_cube C (cgN n) (caN n) (LN n) _ (hz_c C st) f V lits B Hc Q Of Ov Hnd Hrange Hlits)
+    destruct (zrestrict_edge_is_cube C cget cadd Hlossy _ (hz_c C st) f V lits B Hc Q Of Ov Hnd Hrange Hlits)
       as (s2 & c2 & r2 & E2 & _ & S & _).
     fold n in E2. rewrite E in E2. inversion E2; subst s2 c2 r2. exact S.
   - (* ZHEmpty *)
@@ -388,7 +382,7 @@ Proof.
       as (vl & s' & r & R & Ev & E & B' & X & Or & ER & Hq).
     rewrite E. simpl zfinish0.
     destruct (zfinish_ok st (ZHSingleton d v) d s' (hz_c C st) r I eq_refl eq_refl B' X
-                (zcacheokb_extends C (cgN n) _ s' _ B X Q) NF Or) as [I' [F' [_ P']]].
+                (zcacheokb_extends C cget _ s' _ B X Q) NF Or) as [I' [F' [_ P']]].
     eexists. split; [reflexivity|]. split; [exact I'|]. split; [exact F'|]. simpl.
     exists vl. split; [exact Ev|]. apply (P' R _ ER Hq).
   - (* ZHSub *)
@@ -396,11 +390,11 @@ Proof.
     destruct (fam_of_total _ H Hk f Of) as [F EF].
     destruct (nth_error (s_v2l (hz_s C st)) v) as [vl|] eqn:Ev; [|apply nth_error_None in Ev; lia].
     pose proof (rlevel_le _ H f) as Hrl.
-    destruct (zsubset_okB C (cgN n) (caN n) (LN n) op v vl (S n) _ (hz_c C st) f (pof F) B Q
+    destruct (zsubset_okB C cget cadd Hlossy op v vl (S n) _ (hz_c C st) f (pof F) B Q
                 (zden_of_fam _ f F Of EF) Ev ltac:(unfold n; lia))
       as (s' & c' & r & E & B' & X & Q' & D).
     unfold zsubset_top. rewrite Ev, E. simpl zfinish.
-    pose proof (zsubset_pres C (cgN n) (caN n) (NOFUT n) NFadd _ _ _ _ _ _ _ _ _ _ E NF) as NF'.
+    pose proof (zsubset_pres C cget cadd (NOFUT n) n NFadd _ _ _ _ _ _ _ _ _ _ E NF) as NF'.
     destruct (zfinish_ok st (ZHSub op d x v) d s' c' r I eq_refl eq_refl B' X Q' NF' (zden_ok _ _ _ D))
       as [I' [F' [_ P']]].
     eexists. split; [reflexivity|]. split; [exact I'|]. split; [exact F'|]. simpl.
@@ -412,11 +406,11 @@ Proof.
     pose proof (zslot_ok st x f I Ef) as Of. pose proof (zslot_ok st y g I Eg) as Og.
     destruct (fam_of_total _ H Hk f Of) as [F EF]. destruct (fam_of_total _ H Hk g Og) as [G EG].
     pose proof (rlevel_le _ H f) as Hrf. pose proof (rlevel_le _ H g) as Hrg.
-    destruct (zapply_okB gt C (cgN n) (caN n) (LN n) op (S n) _ (hz_c C st) f g (pof F) (pof G) B Q
+    destruct (zapply_okB gt C cget cadd Hlossy op (S n) _ (hz_c C st) f g (pof F) (pof G) B Q
                 (zden_of_fam _ f F Of EF) (zden_of_fam _ g G Og EG) ltac:(unfold n; lia))
       as (s' & c' & r & E & B' & X & Q' & D).
     rewrite E. simpl zfinish.
-    pose proof (zapply_pres gt C (cgN n) (caN n) (NOFUT n) NFadd _ _ _ _ _ _ _ _ _ E NF) as NF'.
+    pose proof (zapply_pres gt C cget cadd (NOFUT n) n NFadd _ _ _ _ _ _ _ _ _ E NF) as NF'.
     destruct (zfinish_ok st (ZHSet op d x y) d s' c' r I eq_refl eq_refl B' X Q' NF' (zden_ok _ _ _ D))
       as [I' [F' [_ P']]].
     eexists. split; [reflexivity|]. split; [exact I'|]. split; [exact F'|]. simpl.
@@ -431,7 +425,7 @@ Proof.
       as (s' & r & A & Bf & R & E & B' & X & Or & EA & EB & ER & HR).
     rewrite E. simpl zfinish0.
     destruct (zfinish_ok st (ZHMakeNode d var hi lo) d s' (hz_c C st) r I eq_refl eq_refl B' X
-                (zcacheokb_extends C (cgN n) _ s' _ B X Q) NF Or) as [I' [F' [_ P']]].
+                (zcacheokb_extends C cget _ s' _ B X Q) NF Or) as [I' [F' [_ P']]].
     eexists. split; [reflexivity|]. split; [exact I'|]. split; [exact F'|]. simpl.
     exists v, h, l, Fv, L, A, Bf. repeat (split; [assumption|]). apply (P' R _ ER HR).
   - (* ZHClone *)
@@ -487,15 +481,14 @@ Proof.
         -- right. destruct (zchain_roots_In _ h Hin) as (l & t & _ & Et & ->). exists l. exact Et.
       * destruct IH as [r [Hr Rr]]. exists r. split; [exact Hr|].
         apply (reach_child _ _ pid pnd e Rr Ep He).
-  - (* ZHAddVars: the cache is kept; what the new view serves, the old view served *)
+  - (* ZHAddVars: the cache is kept; no Restrict entry is keyed with the new number of levels unless it is the old one *)
     destruct (zadd_vars_facts _ k B) as (s' & ch & E & B' & Hc' & G & Hn & Hv2l & Hl2v & Hh & Hold).
     rewrite E. eexists. split; [reflexivity|]. split; [|split].
     + constructor; simpl; [exact B' | exact Hc' | |].
-      * apply (zcacheokb_grows C (cgN n) (cgN (nlevels s')) _ s' (hz_c C st) (hz_c C st) B G); [| | exact Q].
+      * apply (zcacheokb_grows C cget _ s' (hz_c C st) B G); [| | exact Q].
         -- intros var vl Ev. rewrite Hv2l. rewrite nth_error_app1; [exact Ev|]. apply nth_error_Some. congruence.
-        -- intros k0 a m r E0.
-           destruct (zcgetN_later C cget n (nlevels s') _ k0 a m r NF ltac:(fold n in Hn; lia) E0) as [E1 E2].
-           split; [exact E1|]. intros Hk0. fold n. apply (E2 Hk0).
+        -- intros a r E0. fold n.
+           apply (znofuture_later C cget n (nlevels s') _ a r NF ltac:(fold n in Hn; lia) E0).
       * apply (znofuture_mono C cget n); [fold n in Hn; lia | exact NF].
     + split; [|split; [|split; [|split]]]; simpl.
       * intros x _. rewrite Hh. reflexivity.
